@@ -722,7 +722,19 @@ def correspond(ctx, model):
     timing = {}
     for sec in (run_corpus, section_helpers, section_scalar, section_sequence, section_minimize):
         t0 = time.time()
-        sec(env, ctx, model)
+        try:
+            sec(env, ctx, model)
+        except (common.Infra, ModelErr):
+            raise
+        except Exception as e:  # noqa: BLE001
+            # an exception escaping from the code under test is its failure, not the harness's
+            import traceback
+
+            frames = [f for f in traceback.extract_tb(e.__traceback__) if str(common.REPO) in f.filename]
+            if not frames:
+                raise
+            ctx.disagree("%s.%s" % ("wrap", sec.__name__), {"section": sec.__name__, "exception": repr(e)[:300], "raised_in": f"{frames[-1].filename}:{frames[-1].lineno}"},
+                         "raised", "no exception")
         timing[sec.__name__] = round(time.time() - t0, 1)
     ctx.extra["section_wall_s"] = timing
     # the routing of the model agrees with scipy's own notion (contract check)
